@@ -1,0 +1,33 @@
+//go:build verif
+// +build verif
+
+package environment
+
+import (
+	"sort"
+
+	"github.com/skx/evalfilter/v2/object"
+)
+
+// VerifScopeDepth returns the number of open local scopes.
+func (e *Environment) VerifScopeDepth() int { return len(e.local) }
+
+// VerifGlobals returns a copy of the global variable map.
+func (e *Environment) VerifGlobals() map[string]object.Object {
+	out := make(map[string]object.Object, len(e.global))
+	for k, v := range e.global {
+		out[k] = v
+	}
+	return out
+}
+
+// VerifFunctionNames returns the sorted names of all registered
+// (built-in and host) functions.
+func (e *Environment) VerifFunctionNames() []string {
+	var out []string
+	for k := range e.functions {
+		out = append(out, k)
+	}
+	sort.Strings(out)
+	return out
+}
